@@ -78,12 +78,14 @@ Definition sintheta_of (rot : vec3 R) : R := sqrt (1 - vz rot * vz rot).
 Definition rot_phi (fixed : bool) (rot : vec3 R) : R * R :=
   let st := sintheta_of rot in
   if Rleb (5 / 1000) st then (vx rot * (1 / st), vy rot * (1 / st))
-  else if Rltb 0 st then
-    if fixed then
-      let inv := 1 / sqrt (vx rot * vx rot + vy rot * vy rot) in (vx rot * inv, vy rot * inv)
-    else
-      let c := vx rot / sqrt (vx rot * vx rot + vy rot * vy rot) in (c, sqrt (1 - c * c))
-  else (1, 0).
+  else if fixed then
+    (if Rltb 0 (vx rot * vx rot + vy rot * vy rot) then
+       let inv := 1 / sqrt (vx rot * vx rot + vy rot * vy rot) in (vx rot * inv, vy rot * inv)
+     else (1, 0))
+  else
+    (if Rltb 0 st then
+       let c := vx rot / sqrt (vx rot * vx rot + vy rot * vy rot) in (c, sqrt (1 - c * c))
+     else (1, 0)).
 
 Definition rotate_raw_sel (fixed : bool) : R -> vec3 R -> vec3 R -> vec3 R :=
   if fixed then rotate_raw_new else rotate_raw_old.
@@ -124,17 +126,20 @@ Proof.
   - replace (vx rot * (1 / st) * (vx rot * (1 / st)) + vy rot * (1 / st) * (vy rot * (1 / st)))
       with ((vx rot * vx rot + vy rot * vy rot) / (st * st)) by (field; lra).
     rewrite <- Hxy, Hss. field. nra.
-  - destruct (Rltb_spec 0 st) as [Hpos|Hz]; [|lra].
-    set (h := vx rot * vx rot + vy rot * vy rot) in *.
-    assert (Hh : 0 < h) by nra.
-    assert (Hsh : sqrt h * sqrt h = h) by (apply sqrt_sqrt; lra).
-    assert (Hsh0 : 0 < sqrt h) by (apply sqrt_lt_R0; lra).
+  - set (h := vx rot * vx rot + vy rot * vy rot) in *.
     destruct fixed.
-    + cbv zeta.
+    + destruct (Rltb_spec 0 h) as [Hh|Hh0]; [|lra].
+      assert (Hsh : sqrt h * sqrt h = h) by (apply sqrt_sqrt; lra).
+      assert (Hsh0 : 0 < sqrt h) by (apply sqrt_lt_R0; lra).
+      cbv zeta.
       replace (vx rot * (1 / sqrt h) * (vx rot * (1 / sqrt h)) + vy rot * (1 / sqrt h) * (vy rot * (1 / sqrt h)))
         with ((vx rot * vx rot + vy rot * vy rot) / (sqrt h * sqrt h)) by (field; lra).
       rewrite Hsh. fold h. field. lra.
-    + set (c := vx rot / sqrt h).
+    + destruct (Rltb_spec 0 st) as [Hpos|Hz]; [|lra].
+      assert (Hh : 0 < h) by nra.
+      assert (Hsh : sqrt h * sqrt h = h) by (apply sqrt_sqrt; lra).
+      assert (Hsh0 : 0 < sqrt h) by (apply sqrt_lt_R0; lra).
+      set (c := vx rot / sqrt h).
       assert (Hc : c * c = vx rot * vx rot / h).
       { unfold c. replace (vx rot / sqrt h * (vx rot / sqrt h)) with (vx rot * vx rot / (sqrt h * sqrt h)) by (field; lra).
         rewrite Hsh. reflexivity. }
@@ -182,16 +187,23 @@ Proof.
   unfold rot_phi. set (st := sintheta_of rot) in *.
   destruct (Rleb_spec (5 / 1000) st) as [Hge|Hlt].
   - split; field; lra.
-  - destruct (Rltb_spec 0 st) as [Hpos|Hz].
-    + set (h := vx rot * vx rot + vy rot * vy rot) in *.
-      assert (Hh : 0 < h) by nra.
-      assert (Hsh : sqrt h * sqrt h = h) by (apply sqrt_sqrt; lra).
-      assert (Hsh0 : 0 < sqrt h) by (apply sqrt_lt_R0; lra).
-      assert (Hst : st = sqrt h).
-      { apply Rsqr_inj; [lra|lra|]. unfold Rsqr. lra. }
-      destruct fixed.
-      * cbv zeta. rewrite Hst. split; field; lra.
-      * destruct Hb as [Hb|[Hb|Hy]]; [discriminate|lra|].
+  - set (h := vx rot * vx rot + vy rot * vy rot) in *.
+    assert (Hsth : st * st = h) by lra.
+    destruct fixed.
+    + destruct (Rltb_spec 0 h) as [Hh|Hh0].
+      * assert (Hsh : sqrt h * sqrt h = h) by (apply sqrt_sqrt; lra).
+        assert (Hsh0 : 0 < sqrt h) by (apply sqrt_lt_R0; lra).
+        assert (Hst : st = sqrt h) by (apply Rsqr_inj; [lra|lra|unfold Rsqr; lra]).
+        cbv zeta. rewrite Hst. split; field; lra.
+      * assert (Hx0 : vx rot = 0) by (unfold h in Hh0; nra).
+        assert (Hy0 : vy rot = 0) by (unfold h in Hh0; nra).
+        assert (Hst0 : st = 0) by nra. rewrite Hx0, Hy0, Hst0. split; ring.
+    + destruct Hb as [Hb|[Hb|Hy]]; [discriminate|lra|].
+      destruct (Rltb_spec 0 st) as [Hpos|Hz].
+      * assert (Hh : 0 < h) by nra.
+        assert (Hsh : sqrt h * sqrt h = h) by (apply sqrt_sqrt; lra).
+        assert (Hsh0 : 0 < sqrt h) by (apply sqrt_lt_R0; lra).
+        assert (Hst : st = sqrt h) by (apply Rsqr_inj; [lra|lra|unfold Rsqr; lra]).
         split.
         -- rewrite Hst. field. lra.
         -- set (c := vx rot / sqrt h).
@@ -202,7 +214,11 @@ Proof.
            rewrite Hc. rewrite sqrt_square.
            ++ rewrite Hst. field. lra.
            ++ apply Rmult_le_pos; [lra|]. apply Rlt_le, Rinv_0_lt_compat; lra.
-    + assert (Hst0 : st = 0) by lra. rewrite Hst0 in *. split; nra.
+      * assert (Hst0 : st = 0) by lra.
+        assert (Hh0 : h = 0) by (rewrite <- Hsth, Hst0; ring).
+        assert (Hx0 : vx rot = 0) by (unfold h in Hh0; nra).
+        assert (Hy0 : vy rot = 0) by (unfold h in Hh0; nra).
+        rewrite Hx0, Hy0, Hst0. split; ring.
 Qed.
 
 Lemma rotate_raw_sel_polar (fixed : bool) (dir rot : vec3 R) : unitv dir -> unitv rot ->
